@@ -71,6 +71,8 @@ def _default(fn, arg):
     names = [a.arg for a in fn.args.args]
     defaults = fn.args.defaults
     off = len(names) - len(defaults)
+    if arg not in names or names.index(arg) < off:
+        return Fraction(0)          # no such keyword / no default: there is no slack
     i = names.index(arg)
     d = defaults[i - off]
     if not isinstance(d, ast.Constant) or not isinstance(d.value, (int, float)):
@@ -144,14 +146,14 @@ def translate(ctx=None):
     try:
         t, e = _extract_rank_one(open(os.path.join(base, '_numerical_range.py')).read())
         items.append(('rankOneCert', 'detect_real_matrix_subspace_rank_one', 'upper_bound zero_eps', t, e))
-    except Untranslatable as ex:
+    except Exception as ex:
         items.append(('rankOneCert', 'detect_real_matrix_subspace_rank_one (UNTRANSLATABLE: %s)' % str(ex)[:80].replace('-/', ''), 'upper_bound zero_eps', 'True', Fraction(0)))
     measures = {}
     for name, fname in (('hierarchyCert', 'has_rank_hierarchical_method'), ('abcCert', 'is_ABC_completely_entangled_subspace')):
         try:
             t, e, mk = _extract_lu(open(os.path.join(base, '_hierarchy.py')).read(), fname)
             items.append((name, fname, 'm zero_eps', t, e)); measures[name] = mk
-        except Untranslatable as ex:
+        except Exception as ex:
             items.append((name, fname + ' (UNTRANSLATABLE: %s)' % str(ex)[:80].replace('-/', ''), 'm zero_eps', 'True', Fraction(0)))
             measures[name] = 'other'
     for name, pyname, args, expr, eps in items:
@@ -666,9 +668,10 @@ def tie_decisions(ctx):
     ops, impl = [], []
     sub = np.stack([np.eye(2), np.array([[0, 1.0], [1, 0]])])
     # --- detect_real_matrix_subspace_rank_one: upper_bound vs 1 - zero_eps
-    d = inspect.signature(NR.detect_real_matrix_subspace_rank_one).parameters['zero_eps'].default
-    ops.append('C20 certdefault rankone'); impl.append(str(Fraction(repr(d))) if Fraction(repr(d)).denominator != 1 else f'{Fraction(repr(d)).numerator}/1')
-    for eps in [d, 1e-3, 0.25, 1e-12]:
+    prm = inspect.signature(NR.detect_real_matrix_subspace_rank_one).parameters.get('zero_eps')
+    d = prm.default if (prm is not None and isinstance(prm.default, (int, float))) else 0.0      # keyword absent: no slack
+    ops.append('C20 certdefault rankone'); impl.append(f'{Fraction(repr(d)).numerator}/{Fraction(repr(d)).denominator}')
+    for eps in ([d, 1e-3, 0.25, 1e-12] if prm is not None else [d]):
         th = 1 - eps
         for ub in [th * (1 - 1e-9), th * (1 + 1e-9), th - 1e-3, th + 1e-3, 1.0, 1 - 1e-16, 1 + 1e-9, 0.5, 0.0, 1.5, float(rng.uniform(0, 2))]:
             with patched((NR, 'get_real_bipartite_numerical_range', lambda mat, kind='min', method='eigen': ub)):
@@ -702,7 +705,8 @@ def tie_decisions(ctx):
     for which, fn, call, skip in (('hierarchy', H.has_rank_hierarchical_method, lambda e: H.has_rank_hierarchical_method(q2, 2, **e), 1),
                                   ('abc', H.is_ABC_completely_entangled_subspace, lambda e: H.is_ABC_completely_entangled_subspace(list(q3), **e), 0),
                                   ('lu', M.is_vector_linear_independent, lambda e: M.is_vector_linear_independent(q2, 'real', **e), 0)):
-        d = inspect.signature(fn).parameters['zero_eps'].default
+        prm = inspect.signature(fn).parameters.get('zero_eps')
+        d = prm.default if (prm is not None and isinstance(prm.default, (int, float))) else 0.0
         if which != 'lu':
             ops.append(f'C20 certdefault {which}'); impl.append(f'{Fraction(repr(d)).numerator}/{Fraction(repr(d)).denominator}')
         for eps in [d, 1e-3, 0.0, 1e-12]:
@@ -1222,13 +1226,28 @@ CORPUS = os.path.join(common.VERIF, 'corpus', 'C20')
 def replay_corpus(ctx):
     """regression corpus (committed): orthonormal bases with a planted low-rank element whose Gram matrix is numerically singular while
     min|diag U| of its partial-pivot LU exceeds 1e-7 (the repaired defect 561406a).  The unpatched function must answer False on each."""
-    from numqi.matrix_space import has_rank_hierarchical_method
+    from numqi.matrix_space import has_rank_hierarchical_method, detect_real_matrix_subspace_rank_one
     if not os.path.isdir(CORPUS):
         return
     for fn in sorted(os.listdir(CORPUS)):
         if not fn.endswith('.json'):
             continue
         d = json.load(open(os.path.join(CORPUS, fn)))
+        if d['op'] == 'detect_real_matrix_subspace_rank_one':
+            # repaired defect a1c714f: real subspaces containing a rank-one element whose computed bound is 1 minus rounding
+            B = np.array([float.fromhex(x) for x in d['basis_re_hex']]).reshape(d['N'], d['dA'], d['dB'])
+            replay = dict(op=d['op'], corpus_file=os.path.join('corpus', 'C20', fn), dA=d['dA'], dB=d['dB'], N=d['N'], basis=B.tolist())
+            try:
+                tag, ub = detect_real_matrix_subspace_rank_one(B)
+            except Exception as e:
+                ctx.fail('rankone-exception', f'detect_real_matrix_subspace_rank_one raised {type(e).__name__}: {e} on corpus instance {fn}', replay); continue
+            ctx.count('corpus-replayed')
+            if not tag:
+                ctx.fail('rankone-unsound', f'corpus instance {fn}: detect_real_matrix_subspace_rank_one certifies "no rank-one element" (upper_bound={ub!r}, '
+                         f'upper_bound-1={float(ub) - 1:.2e}) for a {d["dA"]}x{d["dB"]} real subspace of dimension {d["N"]} that contains one', replay)
+            else:
+                ctx.probe_ok(('corpus', fn))
+            continue
         shape = (d['N'], d['dA'], d['dB'])
         B = np.array([float.fromhex(x) for x in d['basis_re_hex']]).reshape(shape)
         if d.get('basis_im_hex'):
